@@ -78,7 +78,7 @@ class ObjcBaseCommentModel(BaseModel):
     @property
     def deprecated(self) -> str:
         if isinstance(self.decl.deprecated, str):
-            return 'DEPRECATED_MSG_ATTRIBUTE("' + self.decl.deprecated.replace('\n', r'\n').replace('"', r'\"') + '")'
+            return 'DEPRECATED_MSG_ATTRIBUTE("' + self.decl.deprecated.replace('\\', r'\\').replace('\n', r'\n').replace('"', r'\"') + '")'
         elif self.decl.deprecated is True:
             return "DEPRECATED_ATTRIBUTE"
         else:
